@@ -17,7 +17,12 @@ import (
 	"golang.org/x/tools/go/ssa/ssautil"
 )
 
-const repoDir = "/repo"
+var repoDir = func() string {
+	if d := os.Getenv("VERIF_REPO"); d != "" {
+		return d
+	}
+	return "/repo"
+}()
 const modPath = "github.com/pierrec/lz4/v4"
 
 // ---------- world ----------
@@ -181,6 +186,7 @@ type Job struct {
 	MaxPaths int
 	MaxDepth int
 	Artificial bool
+	AllocLimit int         // cells: a single allocation above this is reported (0 = no limit)
 	NoSummary  bool        // execute blockHash/blockHashHC bodies instead of their uninterpreted summary
 	Fixed      []TapeEntry // concrete mode (translator validation): inputs bound to these values
 
@@ -292,10 +298,12 @@ type Sched struct {
 	wmu     sync.Mutex
 	kfOpen  map[string]bool
 	timeout int
+	failures, maxFailures int
+	stoppedEarly bool
 }
 
 func NewSched(timeoutMs int) *Sched {
-	s := &Sched{worlds: map[string]*World{}, kfOpen: map[string]bool{}, timeout: timeoutMs}
+	s := &Sched{worlds: map[string]*World{}, kfOpen: map[string]bool{}, timeout: timeoutMs, maxFailures: 40}
 	s.cond = sync.NewCond(&s.mu)
 	return s
 }
@@ -324,6 +332,9 @@ func (s *Sched) push(items ...WorkItem) {
 func (s *Sched) pop() (WorkItem, bool) {
 	s.mu.Lock()
 	defer s.mu.Unlock()
+	if s.closed {
+		return WorkItem{}, false
+	}
 	for len(s.stack) == 0 {
 		if s.active == 0 || s.closed {
 			s.cond.Broadcast()
@@ -487,6 +498,23 @@ func (wk *Worker) runItem(it WorkItem) {
 	r := &j.res
 	r.Paths++
 	r.EndCounts[pr.End]++
+	nfail := 0
+	for _, f := range pr.Failures {
+		if f.Known == "" {
+			nfail++
+		}
+	}
+	if nfail > 0 {
+		wk.s.mu.Lock()
+		wk.s.failures += nfail
+		if wk.s.failures >= wk.s.maxFailures && !wk.s.closed {
+			// enough counterexamples to report: stop exploring (the run is not a pass anyway)
+			wk.s.closed = true
+			wk.s.stoppedEarly = true
+		}
+		wk.s.mu.Unlock()
+		wk.s.cond.Broadcast()
+	}
 	for _, f := range pr.Failures {
 		if f.Known != "" {
 			if len(r.KnownHits) < 16 {
